@@ -2,6 +2,7 @@ package props
 
 import (
 	"fmt"
+	"math"
 	"math/rand"
 	"sort"
 	"strings"
@@ -41,7 +42,7 @@ func genC20(t *rapid.T) C20Case {
 	nn := rapid.IntRange(0, 4).Draw(t, "nnums")
 	c.Nums = map[string]int64{}
 	for i := 0; i < nn; i++ {
-		c.Nums[fmt.Sprintf("n%d", i)] = rapid.SampledFrom([]int64{0, 1, -1, 2, 7, -13, 100, 0}).Draw(t, "numval")
+		c.Nums[fmt.Sprintf("n%d", i)] = rapid.SampledFrom([]int64{0, 1, -1, 2, 7, -13, 100, 0, math.MinInt64, math.MaxInt64, -1}).Draw(t, "numval")
 	}
 	nb := rapid.IntRange(0, 3).Draw(t, "nbools")
 	c.Bools = map[string]bool{}
@@ -72,20 +73,34 @@ func checkC20(c C20Case, r *Rec) *Violation {
 	if c.Try {
 		opts = append(opts, eval.EnableTryEval)
 	}
+	// Every variable lives in a map of its own that the harness keeps: the option values built
+	// from these maps are used for a first generation with other values in the maps, then the
+	// maps are set to the real values and the SAME option values are used again - the result
+	// must follow the contents of the maps at the time of the call.
+	var owned []map[string]interface{}
+	var real []interface{}
 	for _, n := range sortedKeys(c.Nums) {
 		var raw interface{} = c.Nums[n]
 		switch c.IntKind % 4 { // the documented normalisation makes these the same variable
 		case 1:
 			raw = int(c.Nums[n])
 		case 2:
-			raw = int32(c.Nums[n])
+			if v := c.Nums[n]; v == int64(int32(v)) {
+				raw = int32(v)
+			}
 		case 3:
-			raw = int16(c.Nums[n])
+			if v := c.Nums[n]; v == int64(int16(v)) {
+				raw = int16(v)
+			}
 		}
-		opts = append(opts, eval.GenVariables(map[string]interface{}{n: raw}))
+		mm := map[string]interface{}{n: int64(5)} // decoy value for the first generation
+		owned, real = append(owned, mm), append(real, raw)
+		opts = append(opts, eval.GenVariables(mm))
 	}
 	for _, n := range sortedKeys(c.Bools) {
-		opts = append(opts, eval.GenVariables(map[string]interface{}{n: c.Bools[n]}))
+		mm := map[string]interface{}{n: !c.Bools[n]}
+		owned, real = append(owned, mm), append(real, c.Bools[n])
+		opts = append(opts, eval.GenVariables(mm))
 	}
 	dnes := append([]string{}, c.Dnes...)
 	sort.Strings(dnes)
@@ -95,6 +110,12 @@ func checkC20(c C20Case, r *Rec) *Violation {
 
 	var gen eval.GenExprResult
 	o := Safe(func() (eval.Value, error) {
+		_ = eval.GenerateRandomExpr(c.Level, rand.New(rand.NewSource(c.Seed+1)), opts...) // first use of the option values (decoy contents)
+		for i, mm := range owned {
+			for k := range mm {
+				mm[k] = real[i]
+			}
+		}
 		gen = eval.GenerateRandomExpr(c.Level, rand.New(rand.NewSource(c.Seed)), opts...)
 		return nil, nil
 	})
